@@ -158,15 +158,27 @@ def tla(v):
     raise TypeError(v)
 
 
-def printed_json(result):
-    """PrintT(ToJson(x)) lines are doubly encoded; return the decoded, de-duplicated objects in order."""
-    seen = set(); outl = []
-    for l in result.output.splitlines():
+def printed_json(result, sample=None, seed=0):
+    """PrintT(ToJson(x)) lines are doubly encoded; return the decoded, de-duplicated objects in order.
+    sample=N: keep a uniform sample of at most N of them (reservoir sampling while reading: the output of an exhaustive generator
+    can be gigabytes, the decoded objects several times that)."""
+    import io, random as _random
+    seen = set(); outl = []; n = 0; rng = _random.Random(seed)
+    for l in io.StringIO(result.output):
         if not (l.startswith('"{') or l.startswith('"[')): continue
-        if l in seen: continue
-        seen.add(l)
+        h = hash(l)
+        if h in seen: continue
+        seen.add(h); n += 1
+        if sample is not None and len(outl) >= sample:
+            j = rng.randrange(n)
+            if j < sample:
+                try: outl[j] = json.loads(json.loads(l))
+                except Exception: pass
+            continue
         try: outl.append(json.loads(json.loads(l)))
         except Exception: pass
+    try: result.printed_total = n
+    except Exception: pass
     return outl
 
 
